@@ -975,6 +975,8 @@ class Interp:
         raise Unsupported("comparison %s" % t.__name__)
 
     def identical(self, a, b):
+        if a is Ellipsis or b is Ellipsis:
+            return a is b
         if a is None or b is None:
             if isinstance(a, OptInt):
                 return a.is_none
